@@ -1304,9 +1304,8 @@ pub fn run(ctx: &Ctx) -> Report {
         }
         rep.merge(ra);
     }
-    // TEMPORARY GATE: part (b) reports genuine findings that are being repaired / registered; until
-    // that is settled the registered check runs part (a) only (part (b): `--opt live=1` or `--opt part=b`)
-    let live_enabled = ctx.opt("live") == Some("1") || only.as_deref() == Some("b") || ctx.replay.is_some();
+    // part (b) can be switched off with `--opt live=0`
+    let live_enabled = ctx.opt("live") != Some("0");
     if only.as_deref() != Some("a") && live_enabled {
         // scenarios stop being started a little before the budget ends: bounded-time misses are
         // re-run in isolation afterwards
@@ -5226,8 +5225,8 @@ mod live {
 
     // ------------------------------------------------------------------------------------------
     // workload: a DATA frame cut in two around the moment sozu ends its stream (early response
-    // of the backend), with slot recycling and shrinking in between — aimed at indices cached
-    // for the pending read
+    // of the backend) while other streams complete — aimed at indices cached for the pending
+    // read. The client writes nothing between the two parts (a frame is atomic on the wire).
     // ------------------------------------------------------------------------------------------
 
     fn fam_early(cell: &mut Cell, _spec: &Spec, rng: &mut Rng, sink: &mut Sink, base: &Value) -> u64 {
@@ -5263,8 +5262,11 @@ mod live {
         let body: Vec<u8> = (0..total).map(|i| b'A' + (i % 23) as u8).collect();
         let whole = Fr::new(h2::FT_DATA, if rng.bool() { h2::FL_END_STREAM } else { 0 }, csid, body).wire();
         let wbase = with(base, json!({"listener": "B (8 streams, shrink ratio 2)", "host": host, "other_streams": others, "data_frame_payload": total, "octets_before_the_pause": first,
-            "workload": "POST whose backend answers at once and closes; the DATA frame of the request is sent in two parts, the second after other streams completed and a new one was opened"}));
+            "workload": "POST whose backend answers at once and closes; the DATA frame of the request is sent in two parts, the second after sozu ended the stream and the other streams completed"}));
         let mut ok = p.send_frs(&frs);
+        // nothing may be written inside the frame: no automatic answers until it is complete
+        p.c.auto_ack = false;
+        p.c.auto_pong = false;
         ok = ok && p.send_bytes(format!("first part of DATA(stream={csid} len={total}): header + {first} octets"), &whole[..9 + first]);
         // sozu ends the stream: the early answer
         let _ = ok && p.pump(REACT_BOUND, &mut |o| o.resp.get(&csid).is_some_and(|r| r.ended) || o.rst.contains_key(&csid) || o.goaway.is_some());
@@ -5275,20 +5277,23 @@ mod live {
         }
         let want = held.clone();
         let _ = p.pump(REACT_BOUND, &mut |o| o.goaway.is_some() || want.iter().all(|s| o.resp.get(s).is_some_and(|r| r.ended) || o.rst.contains_key(s)));
-        if rng.chance(3, 4) && p.alive() {
+        cell.status(sink, "during", &wbase);
+        // the rest of the frame (a frame is atomic on the wire: this client has written nothing,
+        // not even an automatic acknowledgement, since the first part)
+        let alive_before = p.alive();
+        let sent = p.send_bytes(format!("second part of DATA(stream={csid}): {} octets", total - first), &whole[9 + first..]);
+        p.c.auto_ack = true;
+        p.c.auto_pong = true;
+        let fence = if sent { p.ping_fence(REACT_BOUND) } else { Fence::Dead };
+        // a new stream recycles a slot (and shrinks the slot vector)
+        if fence == Fence::Acked && rng.chance(3, 4) {
             let tok = format!("{tag}-new");
-            // (no long wait: with the read side stalled on the cut frame the answer may never come)
-            match simple_get(&mut p, sid, host, &format!("/ok/{tok}"), &tag, Duration::from_millis(400)) {
+            match simple_get(&mut p, sid, host, &format!("/ok/{tok}"), &tag, REACT_BOUND) {
                 Ok((200, _)) => sink.obs("front.early_new_stream_served", 1),
-                _ => sink.obs("front.early_new_stream_not_served_before_the_rest_of_the_frame", 1),
+                _ => sink.obs("front.early_new_stream_not_served", 1),
             }
             sid += 2;
         }
-        cell.status(sink, "during", &wbase);
-        // the rest of the frame
-        let alive_before = p.alive();
-        let sent = p.send_bytes(format!("second part of DATA(stream={csid}): {} octets", total - first), &whole[9 + first..]);
-        let fence = if sent { p.ping_fence(REACT_BOUND) } else { Fence::Dead };
         let ftok = format!("{tag}-after");
         let follow = if fence == Fence::Acked { simple_get(&mut p, sid, host, &format!("/ok/{ftok}"), &tag, REACT_BOUND) } else { Err("connection ended".into()) };
         sink.obs("front.early_scenarios", 1);
